@@ -270,6 +270,23 @@ def program_safe(decls):
     return True
 
 
+def constant_value(decls, e):
+    """value of e if it is a compile-time constant over the flat program (typed literals included), else None"""
+    kinds, consts = [], []
+    try:
+        for d in decls:
+            if d[0] in ("in", "source", "bundle"):
+                kinds.append("sig")
+                consts.append(None)
+            else:
+                v = const_check(d[2], kinds, consts)
+                kinds.append(d[0])
+                consts.append(v if d[0] == "int" else None)
+        return const_check(e, kinds, consts)
+    except Unsafe:
+        return None
+
+
 def s14_free(decls):
     """outside the region of known finding S14: no binary operation whose left operand is a compound
     all-integer constant expression (or an int variable initialised by one) and whose right operand is a signal"""
